@@ -164,7 +164,10 @@ class Module:
     def _flag(self, n, owner):
         add = lambda what: self.forbidden_in.append((n.lineno, what, owner))
         if isinstance(n, ast.Call) and isinstance(n.func, ast.Name) and n.func.id in FORBIDDEN_CALLS:
-            add(n.func.id + "()")
+            if n.func.id == "getattr" and len(n.args) == 2 and (dotted_of(n.args[0]) or "").split(".")[0] in ("np", "numpy", "math", "random", "operator", "itertools"):
+                pass        # getattr(np.random, name): an attribute of a library module; modelled when the name is a literal where it is evaluated, opaque otherwise
+            else:
+                add(n.func.id + "()")
         elif isinstance(n, (ast.Nonlocal, ast.Yield, ast.YieldFrom, ast.AsyncFunctionDef, ast.Await)):
             add(type(n).__name__)
         elif isinstance(n, ast.Attribute) and n.attr in ("__dict__", "__class__", "__globals__"):
